@@ -550,6 +550,8 @@ def run_service(ctx, sv, nframes, st, nbatches, bounded=None):
 
     if bounded:
         run_bounded(ctx, sv, st, pool, default_toks, mtoks, bounded["nframes"], bounded["nrand"])
+        for proto in ("compact", "json"):
+            run_bounded_proto(ctx, sv, st, proto, max(4, bounded["nframes"] // 2), max(3, bounded["nrand"] // 2))
         if bounded.get("nats"):
             run_bounded_nats(ctx, sv, st, pool, default_toks, mtoks, bounded.get("thorough"))
 
@@ -898,7 +900,145 @@ def exc_struct_size(text):
     return (7 + len(text) if text else 0) + 8
 
 
-def bounded_oracle(ctx, sv, st, fr, lim, o, base, call, outcomes, sibling_texts, mode="bounded"):
+# ---- the three protocols, as far as the bounded oracle needs them (envelope and TApplicationException) ----
+
+def _varint(n):
+    out = bytearray()
+    while True:
+        b = n & 0x7f
+        n >>= 7
+        if n:
+            out.append(b | 0x80)
+        else:
+            out.append(b)
+            return bytes(out)
+
+
+def _read_varint(b, i):
+    n, sh = 0, 0
+    while i < len(b):
+        c = b[i]
+        i += 1
+        n |= (c & 0x7f) << sh
+        sh += 7
+        if not c & 0x80:
+            return n, i
+    return None, i
+
+
+class BinaryCodec:
+    name = "binary"
+
+    def envelope(self, name, args):
+        return envelope(name, 1, 0) + args
+
+    def parse_reply(self, frame):
+        return parse_reply(frame)
+
+    def parse_exc(self, body):
+        return parse_app_exception(body)
+
+    def min_error_size(self, opid, name, text, kind):
+        return 4 + hdr_block_size({b"_opid": opid}) + 12 + len(name) + exc_struct_size(text)
+
+    def too_large_text(self, lim, base_len):
+        return None           # the generated Write prefixes the text according to where it stopped
+
+
+class CompactCodec(BinaryCodec):
+    name = "compact"
+
+    def envelope(self, name, args):
+        return bytes([0x82, (1 << 5) | 1]) + _varint(0) + _varint(len(name)) + name + args
+
+    def parse_reply(self, frame):
+        p = hc.ref_parse(frame)
+        if p is None:
+            return "header block not decodable"
+        pairs, b = p
+        if len(dict(pairs)) != len(pairs):
+            return "duplicate header in the reply"
+        if len(b) < 4 or b[0] != 0x82 or b[1] & 0x1f != 1:
+            return "message envelope not decodable"
+        seq, i = _read_varint(b, 2)
+        n, i = _read_varint(b, i) if seq is not None else (None, i)
+        if n is None or i + n > len(b):
+            return "message envelope not decodable"
+        return {"headers": dict(pairs), "name": b[i:i + n], "type": (b[1] >> 5) & 7, "seq": seq, "body": b[i + n:]}
+
+    def parse_exc(self, body):
+        i, msg = 0, b""
+        first = 0x25
+        if body[:1] == b"\x18":
+            n, i = _read_varint(body, 1)
+            if n is None or n == 0 or i + n > len(body):
+                return None
+            msg = body[i:i + n]
+            i += n
+            first = 0x15
+        if body[i:i + 1] != bytes([first]):
+            return None
+        z, j = _read_varint(body, i + 1)
+        if z is None or body[j:] != b"\x00":
+            return None
+        return msg, (z >> 1) ^ -(z & 1)
+
+    def min_error_size(self, opid, name, text, kind):
+        z = (kind << 1) ^ (kind >> 31)
+        return (4 + hdr_block_size({b"_opid": opid}) + 3 + len(_varint(len(name))) + len(name) +
+                ((1 + len(_varint(len(text))) + len(text)) if text else 0) + 1 + len(_varint(z & 0xffffffff)) + 1)
+
+
+class JSONCodec(BinaryCodec):
+    name = "json"
+    RE_MSG = None
+
+    def envelope(self, name, args):
+        return b'[1,"' + name + b'",1,0,' + args + b']'
+
+    def parse_reply(self, frame):
+        import re
+        p = hc.ref_parse(frame)
+        if p is None:
+            return "header block not decodable"
+        pairs, b = p
+        if len(dict(pairs)) != len(pairs):
+            return "duplicate header in the reply"
+        m = re.match(rb'^\[1,"((?:[^"\\]|\\.)*)",(\d+),(-?\d+),(.*)\]$', b, re.S)
+        if m is None:
+            return "message envelope not decodable"
+        return {"headers": dict(pairs), "name": m.group(1), "type": int(m.group(2)), "seq": int(m.group(3)), "body": m.group(4)}
+
+    def parse_exc(self, body):
+        import re
+        import json as _json
+        m = re.match(rb'^\{(?:"1":\{"str":"((?:[^"\\]|\\.)*)"\},)?"2":\{"i32":(-?\d+)\}\}$', body, re.S)
+        if m is None:
+            return None
+        msg = b""
+        if m.group(1) is not None:
+            try:
+                msg = _json.loads('"' + m.group(1).decode("latin1") + '"').encode("latin1", "replace")
+            except Exception:
+                return None
+        return msg, int(m.group(2))
+
+    def min_error_size(self, opid, name, text, kind):
+        import json as _json
+        t = _json.dumps(text.decode("latin1")).encode()
+        body = (b'{"1":{"str":' + t + b'},' if text else b'{') + b'"2":{"i32":%d}}' % kind
+        return 4 + hdr_block_size({b"_opid": opid}) + len(b'[1,"' + name + b'",3,0,' + body + b']')
+
+    def too_large_text(self, lim, base_len):
+        # everything is buffered (bufio, 4096 bytes) and reaches the transport in Flush: the text has no prefix
+        return (b"Buffer size reached (%d)" % lim) if base_len < 3500 else None
+
+
+BINARY = BinaryCodec()
+CODECS = {"binary": BINARY, "compact": CompactCodec(), "json": JSONCodec()}
+
+
+def bounded_oracle(ctx, sv, st, fr, lim, o, base, call, outcomes, sibling_texts, mode="bounded", codec=BINARY):
     """The property over a bounded output on ONE observation, no model.
     base: the reply the same request gets over an unbounded output (bytes, b"" = none)."""
     def bad(what):
@@ -919,7 +1059,7 @@ def bounded_oracle(ctx, sv, st, fr, lim, o, base, call, outcomes, sibling_texts,
         return bad("something was written after the Flush")
     if "[" in o.get("errtext", ""):
         return bad("buffer malformed: " + o["errtext"])
-    rq = parse_request(fr["frame"])
+    rq = fr["rq"] if "rq" in fr else parse_request(fr["frame"])
     if rq is None:
         if w or not o["err"]:
             return bad("a frame without decodable headers / envelope: %d bytes left, error class %s" % (len(w), o["err"]))
@@ -928,13 +1068,13 @@ def bounded_oracle(ctx, sv, st, fr, lim, o, base, call, outcomes, sibling_texts,
     unwritable = call is not None and not call.get("wok", True) and \
         (call.get("default") or (call.get("spec") or {}).get("k") in ("ret", "declared"))
     if fits_all and not unwritable:
-        if canon(w) != canon(base) if (w and base) else w != base:
+        if (canon(w) != canon(base)) if (w and base) else (w != base):
             return bad("the reply fits (%d + 4 bytes) but the output differs from the unbounded one" % len(base))
         if o["err"]:
             return bad("Process returned an error although its answer fits")
         return True
     known = [m for m in sv.methods if m["wire"] == rq["name"]]
-    pb = parse_reply(base) if base else None
+    pb = codec.parse_reply(base) if base else None
     if not base:
         # a oneway success writes nothing whatever the limit
         if w or o["err"]:
@@ -944,7 +1084,7 @@ def bounded_oracle(ctx, sv, st, fr, lim, o, base, call, outcomes, sibling_texts,
         return True       # the unbounded oracle reports that
     btext, bkind = None, None
     if pb["type"] == 3:
-        ex = parse_app_exception(pb["body"])
+        ex = codec.parse_exc(pb["body"])
         if ex is not None:
             btext, bkind = ex
     small_hdr = {b"_opid": rq["opid"]}
@@ -955,19 +1095,28 @@ def bounded_oracle(ctx, sv, st, fr, lim, o, base, call, outcomes, sibling_texts,
             return bad("nothing left for an unknown method but Process returned nil")
         # nothing may be left only if even the op-id-only exception does not fit; its size follows from the
         # error text, which the recorded writes show as soon as an attempt got that far
-        fixed = 4 + hdr_block_size(small_hdr) + 12 + len(rq["name"])
-        text = btext if (btext is not None and not unwritable) else etext_of_trace(tr)
+        if btext is not None and not unwritable:
+            text, kind = btext, bkind
+        elif codec is BINARY:
+            text, kind = etext_of_trace(tr), 100
+        else:
+            text, kind = codec.too_large_text(lim, len(base)), 100
+            if unwritable:
+                text = None
         if text is not None:
-            need = fixed + exc_struct_size(text)
+            need = codec.min_error_size(rq["opid"], rq["name"], text, kind)
             if need <= lim:
                 return bad("nothing was left although the exception under the op id alone takes %d bytes" % need)
-        elif fixed + 7 <= lim:
-            return bad("nothing was left and no attempt got as far as the exception's text although %d bytes fit" % (fixed + 7))
-        st.c["bounded/oracle_nothing_fits"] += 1
+        elif codec is BINARY and 4 + hdr_block_size(small_hdr) + 12 + len(rq["name"]) + 7 <= lim:
+            return bad("nothing was left and no attempt got as far as the exception's text although %d bytes fit" %
+                       (4 + hdr_block_size(small_hdr) + 12 + len(rq["name"]) + 7))
+        elif codec is not BINARY:
+            st.c["bounded/%s_empty_not_judged_by_oracle" % codec.name] += 1
+        st.c["bounded/%s_oracle_nothing_fits" % codec.name] += 1
         return True
     if o["err"]:
         return bad("Process returned an error and left %d bytes" % len(w))
-    r = parse_reply(w)
+    r = codec.parse_reply(w)
     if isinstance(r, str):
         return bad(r)
     if r["headers"].get(b"_opid") != rq["opid"]:
@@ -976,7 +1125,7 @@ def bounded_oracle(ctx, sv, st, fr, lim, o, base, call, outcomes, sibling_texts,
         return bad("reply names method %r seq %d" % (r["name"][:40], r["seq"]))
     if r["type"] != 3:
         return bad("message type %d although the normal reply does not fit" % r["type"])
-    ex = parse_app_exception(r["body"])
+    ex = codec.parse_exc(r["body"])
     if ex is None:
         return bad("EXCEPTION body is not a well-formed TApplicationException")
     if unwritable:
@@ -991,20 +1140,50 @@ def bounded_oracle(ctx, sv, st, fr, lim, o, base, call, outcomes, sibling_texts,
         return bad("exception message %r differs from the unbounded one" % ex[0][:60])
     sibling_texts.append(ex[0])
     if r["headers"] == pb["headers"]:
-        st.c["bounded/oracle_full_headers"] += 1
+        st.c["bounded/%s_oracle_full_headers" % codec.name] += 1
     elif r["headers"] == small_hdr:
         alt = len(w) - hdr_block_size(small_hdr) + hdr_block_size(pb["headers"])
         if alt + 4 <= lim:
             return bad("answered under the op id alone although the exception with all response headers takes %d bytes" % (alt + 4))
-        st.c["bounded/oracle_opid_only"] += 1
+        st.c["bounded/%s_oracle_opid_only" % codec.name] += 1
     else:
         return bad("reply headers %r: neither all response headers nor the op id alone" % sorted(r["headers"])[:6])
     return True
 
 
+def own_otoks(otoks, fr):
+    """the outcome entries a frame can reach: the one under its own x-c14 key"""
+    rq = parse_request(fr["frame"])
+    if rq is None or rq["key"] is None:
+        return []
+    return [t for t in otoks if t[0] == rq["key"]]
+
+
 def bounded_case(mode, lim, mtoks, otoks, default_toks, frame, etext, sizes, oerr, out, trace):
     return [mode, lim, mtoks, otoks, default_toks, big_tok(frame), big_tok(etext), sizes, oerr, big_tok(out),
             [[e["k"], bytes.fromhex(e.get("b", "")), 1 if e["ok"] else 0] for e in trace]]
+
+
+def string_frames(rng, sv, pool, outcomes, k, tagbase, marshal, env):
+    """up to k requests to methods that return a string, answered with a long one (the harness pads it) under
+    response headers of assorted lengths: replies that overflow where the exception with all headers fits"""
+    ms = [m for m in sv.methods if not m["oneway"] and m["m"]["ret"] is not None and
+          L.resolve(sv.prog, m["m"]["ret"])[0] == "string" and pool.get(m["go"])]
+    out = []
+    for j in range(k if ms else 0):
+        m = rng.choice(ms)
+        opid = str(tagbase + j).encode()
+        key = "s%d" % (tagbase + j)
+        extra = [[("x-s%d" % t).encode().hex(), bytes(rng.choice(b"abcdefgh") for _ in range(rng.choice([0, 3, 40, 200]))).hex()]
+                 for t in range(rng.randrange(0, 3))]
+        outcomes[key] = {"k": "ret", "method": m["go"], "result": m["result_key"], "extra": extra,
+                         "value": {"0": L.to_wire(sv.prog, ["string"], "abc")}, "pad": rng.choice([120, 260, 700])}
+        hs = [(b"_opid", opid), (KEY, key.encode())] + ([(b"_cid", b"cid-%d" % j)] if rng.random() < 0.7 else [])
+        args = pool[m["go"]][0]
+        out.append({"kind": "ok", "method": m["wire"].decode(), "opid": opid, "outcome": "ret",
+                    "frame": marshal(hs) + env(m["wire"], args),
+                    "rq": {"opid": opid, "cid": b"", "key": key.encode(), "name": m["wire"], "rest": args}})
+    return out
 
 
 def run_bounded(ctx, sv, st, pool, default_toks, mtoks, nframes, nrand):
@@ -1024,6 +1203,8 @@ def run_bounded(ctx, sv, st, pool, default_toks, mtoks, nframes, nrand):
         # overflows where the exception with all response headers still fits
         if spec.get("k") == "ret" and rng.random() < 0.5:
             spec["pad"] = rng.choice([150, 300, 700])
+    frames += string_frames(rng, sv, pool, outcomes, 2, 790000 + 100 * st.c["bounded/batches"], hc.ref_marshal,
+                            lambda name, args: envelope(name, 1, 0) + args)
     n = len(frames)
     r0 = run_mode_b(sv, "bounded", frames, outcomes, [0] * n)
     if r0.get("code") != 0:
@@ -1085,7 +1266,7 @@ def run_bounded(ctx, sv, st, pool, default_toks, mtoks, nframes, nrand):
         w = bytes.fromhex(o.get("written", ""))
         nrej = sum(1 for e in o.get("trace", []) if e["k"] == 0 and not e["ok"])
         st.distinct.add((sv.key, frames[i]["kind"], frames[i].get("outcome"), frames[i]["method"], "bounded", nrej, bool(w)))
-        st.bjudge_cases.append(bounded_case(0, l, mtoks, otoks, default_toks, frames[i]["frame"],
+        st.bjudge_cases.append(bounded_case(0, l, mtoks, own_otoks(otoks, frames[i]), default_toks, frames[i]["frame"],
                                             etext_of_trace(o.get("trace", [])) or b"?", sizes[i], 1 if o["err"] else 0, w,
                                             o.get("trace", [])))
         st.bjudge_meta.append((sv, "bounded", frames[i], outcomes, l, o))
@@ -1096,12 +1277,19 @@ def run_bounded(ctx, sv, st, pool, default_toks, mtoks, nframes, nrand):
                             "left": o.get("written", "")[:120], "rejected_writes":
                             sum(1 for e in o.get("trace", []) if e["k"] == 0 and not e["ok"])})
 
-    # ---- HTTP handler with a payload limit
+    # ---- HTTP handler with a payload limit (the payload sizes come from an HTTP run without limit: the text
+    # of a PROTOCOL_ERROR depends on the input transport)
+    rh0 = run_mode_b(sv, "http", frames, outcomes, [0] * n)
+    if rh0.get("code") != 0:
+        ctx.violation("C14 (http): the run crashed or hung: %s" % (rh0.get("panic") or rh0.get("err")),
+                      replay_of(sv, frames, outcomes, "http", None, rh0), signature=None)
+        return
+    baseh = [bytes.fromhex(rh0["obs"][i].get("raw", ""))[4:] for i in range(n)]
     hplan = []
     for i in range(n):
         if parse_request(frames[i]["frame"]) is None:
             continue
-        P = len(base[i])
+        P = len(baseh[i])
         for l in {1, P - 1, P, P + 1, rng.randrange(1, P + 2)}:
             if l > 0:
                 hplan.append((i, l))
@@ -1115,13 +1303,13 @@ def run_bounded(ctx, sv, st, pool, default_toks, mtoks, nframes, nrand):
         else:
             for (i, l), o in zip(hplan, r["obs"]):
                 st.evals += 1
-                P = len(base[i])
+                P = len(baseh[i])
                 want = 413 if l < P else 200
                 got = bytes.fromhex(o.get("raw", ""))[4:]
                 what = None
                 if o.get("status") != want:
                     what = "status %s for a payload of %d bytes under x-frugal-payload-limit %d" % (o.get("status"), P, l)
-                elif want == 200 and (canon(got) != canon(base[i]) if (got and base[i]) else got != base[i]):
+                elif want == 200 and (canon(got) != canon(baseh[i]) if (got and baseh[i]) else got != baseh[i]):
                     what = "the body differs from the reply the same request gets from Process"
                 if what:
                     rep = replay_of(sv, [frames[i]], outcomes, "http", 0, o)
@@ -1130,10 +1318,133 @@ def run_bounded(ctx, sv, st, pool, default_toks, mtoks, nframes, nrand):
                                   signature={"mode": "http-limit", "kind": frames[i]["kind"]})
                 st.c["bounded/http_%d" % (o.get("status") or 0)] += 1
                 st.distinct.add((sv.key, frames[i]["kind"], frames[i].get("outcome"), frames[i]["method"], "http-limit", o.get("status")))
-                et = etext_of([base[i]]) if base[i] else b""
-                st.bjudge_cases.append(bounded_case(2, l, mtoks, otoks, default_toks, frames[i]["frame"], et, [],
+                et = etext_of([baseh[i]]) if baseh[i] else b""
+                st.bjudge_cases.append(bounded_case(2, l, mtoks, own_otoks(otoks, frames[i]), default_toks, frames[i]["frame"], et, [],
                                                     {200: 0, 500: 1, 413: 2}.get(o.get("status"), 9), got, []))
                 st.bjudge_meta.append((sv, "http", frames[i], outcomes, l, o))
+
+
+def ascii_text(rng, lo=1, hi=30):
+    return "".join(rng.choice("abcdefghij klmnop:_-XYZ09") for _ in range(rng.randrange(lo, hi))).encode()
+
+
+def run_bounded_proto(ctx, sv, st, proto, nframes, nrand):
+    """The same bounded-output runs under the compact and JSON protocols (direct oracle only: the Coq model
+    is of the binary protocol).  JSON buffers the whole message in a bufio.Writer, which keeps a failed Flush
+    as a sticky error: resetProtocol in trapError / sendError exists for it."""
+    rng = ctx.rng
+    codec = CODECS[proto]
+    reqs, meta = [], []
+    for m in sv.methods:
+        for _ in range(2):
+            v = L.gen_struct_value(rng, sv.prog, m["args_sdef"])
+            reqs.append({"op": "write", "type": m["args_key"], "proto": proto,
+                         "value": L.struct_to_wire(sv.prog, m["args_sdef"], v)})
+            meta.append(m["go"])
+    pool = collections.defaultdict(list)
+    for g, r in zip(meta, sv.lb.run(reqs)):
+        if r.get("code") == 0:
+            pool[g].append(bytes.fromhex(r["out"]))
+    frames, outcomes = [], {}
+    tagbase = 900000 + 1000 * st.c["bounded/batches_" + proto]
+    st.c["bounded/batches_" + proto] += 1
+    for i in range(nframes):
+        m = rng.choice(sv.methods)
+        if not pool[m["go"]]:
+            continue
+        kind = rng.choice(["ok"] * 7 + ["unknown", "badargs"])
+        opid = str(tagbase + i).encode()
+        key = ("k%d" % (tagbase + i)).encode()
+        hdrs = [(b"_opid", opid), (KEY, key)]
+        cid = b""
+        if rng.random() < 0.7:
+            cid = ascii_text(rng, 1, 60)
+            hdrs.append((b"_cid", cid))
+        rng.shuffle(hdrs)
+        name, args = m["wire"], rng.choice(pool[m["go"]])
+        desc = {"kind": kind, "method": name.decode(), "opid": opid}
+        if kind == "unknown":
+            name = b"nosuch" + name
+        else:
+            spec, ok = gen_outcome(rng, sv, m)
+            if "msg" in spec:
+                spec["msg"] = ascii_text(rng).hex()
+            spec["extra"] = []
+            if rng.random() < 0.7:
+                for _ in range(rng.randrange(1, 4)):
+                    spec["extra"].append([("x-b%d" % rng.randrange(6)).encode().hex(),
+                                          ascii_text(rng, 1, rng.choice([2, 8, 31, 121, 301])).hex()])
+            if spec.get("k") == "ret" and rng.random() < 0.5:
+                spec["pad"] = rng.choice([150, 300, 700])
+            outcomes[key.decode()] = spec
+            desc["outcome"] = ok
+        if kind == "badargs":
+            args = args[:rng.randrange(0, max(1, len(args) - 1))]
+        desc["frame"] = hc.ref_marshal(hdrs) + codec.envelope(name, args)
+        desc["rq"] = {"opid": opid, "cid": cid, "key": key if kind != "unknown" else None, "name": name, "rest": args}
+        frames.append(desc)
+    frames += string_frames(rng, sv, pool, outcomes, 2, tagbase + 500, hc.ref_marshal, codec.envelope)
+    n = len(frames)
+    if not n:
+        return
+    r0 = run_mode_b(sv, "bounded", frames, outcomes, [0] * n, proto=proto)
+    if r0.get("code") != 0:
+        ctx.violation("C14 (bounded, %s): the unbounded run crashed or hung: %s" % (proto, r0.get("panic") or r0.get("err")),
+                      replay_of(sv, frames, outcomes, "bounded-" + proto, None, r0), signature=None)
+        return
+    calls_by_key = {}
+    for c in r0["calls"]:
+        calls_by_key.setdefault(c["key"], c)
+    for key, c in calls_by_key.items():
+        c["spec"] = outcomes.get(key)
+    base = [bytes.fromhex(r0["obs"][i].get("written", "")) for i in range(n)]
+    for i in range(n):
+        # the unbounded answers themselves: one well-formed message with the request's op id
+        if base[i]:
+            pr = codec.parse_reply(base[i])
+            if isinstance(pr, str) or pr["headers"].get(b"_opid") != frames[i]["opid"]:
+                rep = replay_of(sv, [frames[i]], outcomes, "bounded-" + proto, 0, r0["obs"][i])
+                ctx.violation("C14 (bounded, %s, no limit): %s" % (proto, pr if isinstance(pr, str) else "wrong op id"), rep,
+                              signature={"mode": "bounded-" + proto, "kind": frames[i]["kind"]})
+
+    def run_pass(plan):
+        if not plan:
+            return []
+        r = run_mode_b(sv, "bounded", [frames[i] for i, _ in plan], outcomes, [l for _, l in plan], proto=proto)
+        if r.get("code") != 0:
+            ctx.violation("C14 (bounded, %s): the run crashed or hung: %s" % (proto, r.get("panic") or r.get("err")),
+                          replay_of(sv, [frames[i] for i, _ in plan], outcomes, "bounded-" + proto, None, r), signature=None)
+            return []
+        return list(zip(plan, r["obs"]))
+
+    plan1 = []
+    for i in range(n):
+        N = len(base[i]) + 4
+        lims = {1, 4, 5, N - 1, N, N + 1}
+        for _ in range(nrand):
+            lims.add(rng.randrange(5, N + 4))
+        plan1 += [(i, l) for l in sorted(lims) if l > 0]
+    obs1 = run_pass(plan1)
+    seen = set(plan1)
+    plan2 = []
+    for (i, l), o in obs1:
+        E = len(bytes.fromhex(o.get("written", "")))
+        if E:
+            for l2 in (E + 3, E + 4, E + 5):
+                if (i, l2) not in seen:
+                    seen.add((i, l2))
+                    plan2.append((i, l2))
+    allobs = obs1 + run_pass(plan2)
+    for (i, l), o in allobs:
+        rq = frames[i]["rq"]
+        call = calls_by_key.get(rq["key"].decode()) if rq["key"] else None
+        bounded_oracle(ctx, sv, st, frames[i], l, o, base[i], call, outcomes, [], mode="bounded-" + proto, codec=codec)
+        st.evals += 1
+        w = o.get("written", "")
+        st.distinct.add((sv.key, frames[i]["kind"], frames[i].get("outcome"), frames[i]["method"], "bounded-" + proto,
+                         bool(w), len(w) < len(base[i].hex())))
+    st.c["bounded/observations_" + proto] += len(allobs)
+
 
 
 def run_mode_b(sv, mode, frames, outcomes, limits, proto="binary"):
